@@ -11,6 +11,7 @@
   every value transfer `τ` (decode ∘ encode of a protocol, C01/C02's subject), no bound anywhere.
 -/
 import Proofs.Null
+import Proofs.NullSeq
 import SpyneModel.Generated.Facts18
 namespace SpyneModel.Props.C18
 open SpyneModel.Null SpyneModel.Generated
@@ -147,6 +148,57 @@ theorem bare_none_view (P : ProtoCfg) (s : Sig) (v : Val) :
     (∃ cls, P.bareNone = .emptyInstance ∧ s.style ≠ .wrapped ∧ s.returns = .one (.complex cls []) ∧
       v = .none ∧ viewVal P s v = .obj cls []) :=
   viewVal_cases P s v
+
+/-! ### auxiliary companions and kept function objects -/
+
+/-- The caller gets the primary method's result: auxiliary methods bound to the same public name
+    run (`aux_args_received`), their results and errors are discarded — whatever they are, however
+    many there are. -/
+theorem null_result_is_primary (s : Sig) (impl : List Val → Result) (auxs : List Aux)
+    (kept : Option (List Val)) (pos : List Val) (kw : List (String × Val)) :
+    nullCallFrom facts18 s impl auxs kept pos kw = nullCall facts18 s impl pos kw :=
+  nullCallFrom_good facts18 (by decide) s impl auxs kept pos kw
+
+/-- A `_FunctionCall` object carries no argument state between calls: on one kept object
+    (`f = server.service.m`) the i-th call's result, and what the function receives in it, depend
+    on that call's own arguments only — for every history, every initial state. -/
+theorem null_call_history_free (s : Sig) (impl : List Val → Result) (auxs : List Aux)
+    (kept : Option (List Val)) (cs : List Call) :
+    callSeq facts18 s impl auxs kept cs = (cs.map fun c => nullCall facts18 s impl c.1 c.2) ∧
+    recvSeq facts18 s kept cs = (cs.map fun c => nullRecv facts18 s c.1 c.2) :=
+  ⟨callSeq_history_free facts18 (by decide) s impl auxs kept cs,
+   recvSeq_history_free facts18 (by decide) s kept cs⟩
+
+/-- NullServer ≈ wire, extended: any auxiliary companions, any state of a kept object, whichever
+    of the three protocols -/
+theorem null_eq_wire_aux (P : ProtoCfg)
+    (hP : P = facts18.xml ∨ P = facts18.soap ∨ P = facts18.json) (τ : Val → Val) (s : Sig)
+    (impl : List Val → Result) (auxs : List Aux) (kept : Option (List Val)) (pos : List Val)
+    (kw : List (String × Val)) (hprog : ProgramOkOn τ s impl (nullRecv facts18 s pos kw))
+    (hkw : KwOk facts18 kw) (hcall : CallOk τ s pos kw) :
+    wireViewP P s (nullCallFrom facts18 s impl auxs kept pos kw)
+      = wireCallAux facts18 P τ s impl auxs pos kw := by
+  have hg : P.Good := by rcases hP with h | h | h <;> subst h <;> decide
+  exact nullFrom_eq_wireAux facts18 (by decide) (by decide) P hg τ s impl auxs kept pos kw hprog hkw hcall
+
+/-- the auxiliary functions run in the same cases (not when the primary method failed) and with
+    the same arguments on both paths -/
+theorem aux_args_received (P : ProtoCfg)
+    (hP : P = facts18.xml ∨ P = facts18.soap ∨ P = facts18.json) (τ : Val → Val) (s : Sig)
+    (impl : List Val → Result) (auxs : List Aux) (kept : Option (List Val)) (pos : List Val)
+    (kw : List (String × Val)) (hprog : ProgramOkOn τ s impl (nullRecv facts18 s pos kw))
+    (hkw : KwOk facts18 kw) (hcall : CallOk τ s pos kw) (haux : ∀ a ∈ auxs, CallOk τ a.1 pos kw) :
+    nullAuxRecv facts18 s impl auxs kept pos kw = wireAuxRecv facts18 P τ s impl auxs pos kw := by
+  have hg : P.Good := by rcases hP with h | h | h <;> subst h <;> decide
+  exact auxRecv_agree facts18 (by decide) (by decide) P hg τ s impl auxs kept pos kw hprog hkw hcall haux
+
+/-- `_cb_sync` run for every context: the caller gets the auxiliary method's result -/
+theorem last_context_breaks_null (F : Facts18) (h : F.auxResult = .lastContext) (s : Sig)
+    (impl : List Val → Result) (a : Aux) (kept : Option (List Val)) (pos : List Val)
+    (kw : List (String × Val)) (v : Val)
+    (hp : ctxResult F s impl (nullRecvFrom F s kept pos kw) = .ok v) :
+    nullCallFrom F s impl [a] kept pos kw = ctxResult F a.1 a.2 (nullRecv F a.1 pos kw) :=
+  lastContext_breaks F h s impl a kept pos kw v hp
 
 /-! ### body styles -/
 
@@ -315,6 +367,23 @@ example : let s : Sig := ⟨.outBare, ["n"], none, .one (.complex "Ack" [])⟩
 example : let F := { facts18 with ewWrapper := false }
     nullCall F ⟨.outBare, ["n"], none, .one (.complex "Ack" [])⟩ (fun _ => .value (.obj "Ack" [])) [.int 1] []
       = .ok .none := rfl
+
+/-- an auxiliary companion that returns something else, one that raises: the primary's result -/
+example : nullCallFrom facts18 sW echo2
+    [(sW, fun _ => .value (.seq [.int 0, .str "aux"])), (sW, fun _ => .fault "Client.Aux")]
+    none [.int 1, .str "x"] [] = .ok (.seq [.int 1, .str "x"]) := rfl
+/-- the seeded defect in the model: `_cb_sync` for every context hands out the aux result -/
+example : nullCallFrom { facts18 with auxResult := .lastContext } sW echo2
+    [(sW, fun _ => .value (.seq [.int 0, .str "aux"]))] none [.int 1, .str "x"] []
+    = .ok (.seq [.int 0, .str "aux"]) := rfl
+/-- `f = server.service.fmt; f('a', 8); f('b')`: the second call sees `None`; with shared slots
+    (the seeded defect) it would see the 8 of the first call -/
+example : let fmt : Sig := ⟨.wrapped, ["s", "w"], none, .many 2⟩
+    callSeq facts18 fmt echo2 [] none [([.str "a", .int 8], []), ([.str "b"], [])]
+      = [.ok (.seq [.str "a", .int 8]), .ok (.seq [.str "b", .none])] ∧
+    callSeq { facts18 with slotsPerCall := false } fmt echo2 [] none
+        [([.str "a", .int 8], []), ([.str "b"], [])]
+      = [.ok (.seq [.str "a", .int 8]), .ok (.seq [.str "b", .int 8])] := ⟨rfl, rfl⟩
 
 /-- Ignored with two declared return values -/
 example : nullCall facts18 sW (fun _ => .value (.ignored (.int 7))) [] [] = .ok (.ignored (.int 7)) ∧
